@@ -65,7 +65,7 @@ def run(ctx):
                       key='R1|%s|used-size=%r' % (short, diff))
 
     # ---- R1b who may write the used size -----------------------------------------------------------------------------------
-    ctx.rule('R1b', 'the used size is written only by incr_used_size / decr_used_size and the initial content parser', 2)
+    ctx.rule('R1b', 'the used size is written only by incr_used_size / decr_used_size and the initial content parser; the two helpers add / subtract exactly the amount passed', 4)
     uses = lib.field_uses(P, EXT + '::used_size_')
     for u in uses:
         if u.kind != 'write':
@@ -74,6 +74,33 @@ def run(ctx):
         ok = q.startswith((EXT + '::incr_used_size', EXT + '::decr_used_size', EXT + '::FileSystemDiskExt', EXT + '::parse_content'))
         ctx.check(ok, 'R1b', 'write of used_size_ in %s' % q, where(u.fn, u.line), 'allowed writer' if ok else 'unexpected writer of the used size',
                   key='R1b|%s|writer' % q)
+
+    # the two helpers do what R1 and R2 take them to do: used_size_ changes by exactly the amount passed, unconditionally
+    for nm, op in (('incr_used_size', '+='), ('decr_used_size', '-=')):
+        hs = [f for f in P.fns.values() if f['q'] == EXT + '::' + nm and f.get('elems')]
+        ctx.require(len(hs) == 1, 'R1b', '%s: %d definitions' % (nm, len(hs)))
+        if len(hs) != 1:
+            continue
+        h = hs[0]
+        prm = h['params'][0]['n'] if h['params'] else None
+        bodies = [h] + [P.fns[n['fn']] for el in h['elems'] for n in ex.walk(el['x']) if n.get('k') == 'Lambda' and n.get('fn') in P.fns]
+        ws = []
+        for b in bodies:
+            if not b.get('blocks'):
+                continue
+            bv = A.view(b)
+            nb = len([x for x in b['blocks'] if len(bv.succs(x['id'])) > 1 and not bv.is_log_branch(x['id'])])
+            for eid in range(len(b['elems'])):
+                for e in bv.events_of(eid):
+                    if e.kind == 'assign' and e.lhs[0] == 'field' and e.lhs[2] == EXT + '::used_size_':
+                        rhs = e.rhs
+                        while rhs[0] in ('cast', 'conv'):
+                            rhs = rhs[2]
+                        ws.append((e.op, rhs[2] if rhs[0] == 'var' else ex.pretty(rhs), nb, e.line))
+        ok = len(ws) == 1 and ws[0][0] == op and ws[0][1] == prm and ws[0][2] == 0
+        ctx.check(ok, 'R1b', '%s: used_size_ %s %s, unconditionally' % (nm, op, prm), where(h, ws[0][3] if ws else None),
+                  'stores: %s' % [(w[0], w[1], 'under %d branch(es)' % w[2]) for w in ws] + (': the disk is charged something else than what the file grew by' if not ok else ''),
+                  key='R1b|%s|exact amount' % nm)
 
     # ---- R2 unlink / constructor / move ----------------------------------------------------------------------------------
     ctx.rule('R2', 'unlink gives back exactly the file size and erases the entry; opening never changes the used size and a new '
